@@ -274,7 +274,7 @@ def body(ctx):
         repsel = ["ii", "dd", "u8", "id"]
     else:
         rnd.shuffle(pairs)
-        chosen = pairs[:14]
+        chosen = pairs[:8]
         repsel = ["ii", "dd", "u8", "id"]
     configs = cxx.configs_for(ctx.tier)
 
